@@ -62,7 +62,9 @@ def endpoints(rng, regs, satnum, vertical=False):
                 out[small].append(round(m * rng.uniform(0.3, 0.9), 3))
     for c in range(NC):
         swl = round(rng.uniform(0.05, 0.3), 3)
-        swcr = round(swl + rng.uniform(0.0, 0.1), 3)
+        # (with vertical scaling the critical saturation lies strictly above the connate one: at SWCR = SWL the curve
+        #  would have to carry KRO and KRORW at the same point)
+        swcr = round(swl + rng.uniform(0.01 if vertical else 0.0, 0.1), 3)
         sowcr = round(rng.uniform(0.05, 0.25), 3)
         sogcr = round(rng.uniform(0.05, 0.25), 3)
         sgcr = round(rng.uniform(0.0, 0.12), 3)
